@@ -15,6 +15,8 @@ import m_amap
 import m_own
 import m_xen
 import m_system
+import m_mord
+import m_unmap
 
 
 def c09(ctx):
@@ -55,12 +57,24 @@ def with_system(f):
     return g
 
 
+def c05(ctx):
+    both(ctx)
+    m_system.run(ctx)
+    m_mord.run(ctx)
+
+
+def c12(ctx):
+    m_own.run(ctx)
+    m_system.run(ctx)
+    m_unmap.run(ctx)
+
+
 PROPS = {
     "C02": m_guest.run,
     "C03": with_system(m_guest.run),
     "C01": m_volatile.run,
     "C04": m_volatile.run,
-    "C05": with_system(both),
+    "C05": c05,
     "C15": m_xen.xctor,
     "C16": with_system(both),
     "C17": c17,
@@ -71,7 +85,7 @@ PROPS = {
     "C09": c09,
     "C10": with_system(m_regions.run),
     "C11": with_system(m_amap.run),
-    "C12": with_system(m_own.run),
+    "C12": c12,
     "C13": m_streams.run,
     "C14": m_guest.run_c14,
     "C19": m_addr.run,
